@@ -384,10 +384,13 @@ def compare(case, obs, exp, hang=None):
         for k, got in enumerate(oa["police"]):
             want = ea["police"][k]
             sup, req = case["police"][k]
-            if "panic" in got:
-                continue        # reported under C01 above
             if ea["class"] != "request":
                 continue        # C16 speaks about requests
+            if "panic" in got:
+                # (reported under C01 above; for a request it is also no answer to the policing question)
+                must.append((["C16"], "policing with supported=%s required=%s (%d/%d entries): panic instead of %s" % (
+                    sup[:8], req[:8], len(sup), len(req), json.dumps(want)[:120])))
+                continue
             gv = got.get("verdict")
             if gv != want["verdict"]:
                 must.append((["C16"], "policing with supported=%s required=%s: impl %s spec %s" % (sup, req, json.dumps(got)[:200], json.dumps(want))))
@@ -642,9 +645,19 @@ def c17(rep, tier, seed, wd):
     for c in allc:
         c["cuts"] = True
     allc += huge_messages(random.Random(seed), 3 if tier == "quick" else 5)
+    # the verdict on a prefix does not depend on what kind of message it is: EVERY one of the 16384 type fields (4 classes x 4096
+    # methods), with one attribute (quick: prefixes of 2, 19, 20, 21 and 27 of its 28 bytes; thorough: every prefix)
+    tid = [0x14, 0xfe, 0xfd, 0, 1, 2, 3, 4, 5, 6, 7, 8]
+    for f in range(16384):
+        m = {"bytes": [f >> 8, f & 255, 0, 8, 0x21, 0x12, 0xa4, 0x42] + tid + [0x80, 0x22, 0, 2, 0x61, 0x62, 0, 0], "src": "message of type 0x%04x" % f}
+        if tier == "quick":
+            m["cutlist"] = [2, 19, 20, 21, 27]
+        else:
+            m["cuts"] = True
+        allc.append(m)
     triples = run_pipeline(allc, wd, "c17", trace=False, chunk=1500)
     report_must(rep, "C17", triples, "case")
-    ncuts = sum(len(e.get("cuts", [])) for (_c, o, e, _h) in triples)
+    ncuts = sum(len(e.get("cuts", [])) + len(e.get("cutlist", [])) for (_c, o, e, _h) in triples)
     nmsg = sum(1 for (_c, o, e, _h) in triples if e.get("cuts"))
     rep.add_cov(states=st, transitions=max(tr, 1), traces_validated_against_impl=nmsg, prefixes_checked=ncuts,
                 samples=[{"bytes": gcs[0]["bytes"] if gcs else allc[0]["bytes"], "cuts": "0..len-1"}], exhaustive_in_cut_points=True,
@@ -661,6 +674,21 @@ def police_sets(types_present, rng, k):
         sup = [t for t in alpha if rng.random() < 0.6]
         req = [t for t in alpha if rng.random() < 0.25]
         out.append([sup, req])
+    # the two arguments are lists: the same set with repeated entries, in another order, and lists whose LENGTH is special
+    # (63, 64, 65, 128, 256 entries: word sizes of a bitmap), with all of the present types among them or one missing
+    pres = sorted(set(types_present))
+    if pres:
+        t = rng.choice(pres)
+        out += [[alpha, [t, t]], [alpha + alpha[::-1], pres + pres], [alpha[::-1], pres[::-1]], [[x for x in alpha if x != t] * 2, [t, t, t]]]
+    absent = [x for x in (0x0101, 36, 6, 0x7ffe) if x not in pres][0]
+    out += [[alpha, [absent, absent]], [alpha, pres + [absent, absent]]]
+    for n in (63, 64, 65, 128):
+        fill = [x for x in range(0x0200, 0x0200 + 2 * n) if x not in pres]
+        full = (pres + fill)[:n]
+        out.append([sorted(set(alpha) | set(full)), full])                      # n required types, those present first
+        out.append([alpha, (fill[:n - len(pres)] + pres)[:n][::-1]])           # n required types, those present last
+        if pres and n in (64, 65):
+            out.append([alpha, pres[:1] * n])                                  # one type named n times
     return out
 
 
